@@ -1582,6 +1582,10 @@ func (stmt *UpsertIntoStmt) execAt(ctx context.Context, tx *SQLTx, params map[st
 						return nil, err
 					}
 
+					if rval.IsNull() && col.notNull {
+						return nil, fmt.Errorf("%w (%s)", ErrNotNullableColumnCannotBeNull, col.colName)
+					}
+
 					valuesByColID[col.id] = rval
 
 					// update row representation for check constraints
@@ -1592,6 +1596,11 @@ func (stmt *UpsertIntoStmt) execAt(ctx context.Context, tx *SQLTx, params map[st
 							break
 						}
 					}
+				}
+
+				// the row resulting from the update must satisfy the check constraints as well
+				if err := checkConstraints(tx, table.checkConstraints, r, table.name); err != nil {
+					return nil, err
 				}
 			}
 		}
@@ -2076,6 +2085,10 @@ func (stmt *UpdateStmt) execAt(ctx context.Context, tx *SQLTx, params map[string
 			err = rval.requiresType(col.colType, cols, nil, table.name)
 			if err != nil {
 				return nil, err
+			}
+
+			if rval.IsNull() && col.notNull {
+				return nil, fmt.Errorf("%w (%s)", ErrNotNullableColumnCannotBeNull, col.colName)
 			}
 
 			valuesByColID[col.id] = rval
